@@ -137,12 +137,12 @@ CLAIMED.update({
         "command {eval in a frame, console eval, console page, pinauth, printpin, resource, plain} x secret {right, wrong, absent, previous instance's} x 30 Host forms x PIN cookie {valid, expired, "
         "issued in the future, wrong hash, malformed, absent, from the jar} x frame id x evalex on/off x PIN on/off. werkzeug.debug.time is a simulated clock, so the one-week cookie lifetime and the "
         "0.5 s / 5 s brute-force sleeps cost nothing; faults and schedules are clock jumps forwards and backwards, process restart (new instance: new secret, counter reset, old cookies still carry a "
-        "valid hash) and concurrent pinauth attempts in baton-scheduled real threads that are pre-empted inside the simulated sleep. Reference model: eval reachable iff evalex, trusted host, right "
+        "valid hash) and overlapping pinauth attempts (right, wrong, stale cookie) in baton-scheduled real threads that are pre-empted at every line of werkzeug/debug/__init__.py and inside the simulated sleep, the counter's lock being scheduled by the simulator; their answers and the final counter must be explainable by some sequential order (linearizability against the sequential PIN model). Reference model: eval reachable iff evalex, trusted host, right "
         "secret, known frame and an unexpired valid cookie (or PIN off); console / PIN endpoints answer only trusted hosts; after more than ten failures even the right PIN is refused until restart. "
         "Host validation over a label grammar rides along as workload (a pure function).",
         design_ref="3.12",
         note="PIN attempt sequences go to 14 (quick) / 40 (thorough); the 8-bit failure counter wrapping at 256 is outside the stated domain (observation G2). pinauth with the PIN switched off is not generated (it fails with an internal error; observation O2).",
-        technique="deterministic simulation: request histories on a simulated clock with clock jumps, restart and baton-scheduled concurrent attackers, gate reference model with a spy frame",
+        technique="deterministic simulation: request histories on a simulated clock with clock jumps, restart and baton-scheduled concurrent attackers (line-level pre-emption, linearizability check), gate reference model with a spy frame",
     ),
 })
 
